@@ -461,7 +461,11 @@ def check_flag_cleared_after_the_refresh(ctx, rep, rule='C11.S', only=None):
                     continue
                 n += 1
                 flag = next(self_attr(t) for t in iff.body[clear].targets if self_attr(t) in flags)
-                after = [st for st in iff.body[clear + 1:] if any(isinstance(c, ast.Call) for c in ast.walk(st))]
+                # what runs after the clear and belongs to the refresh: a call of one of the object's own methods or a store into the object computed by a call (a log
+                # line or an assertion after the clear changes nothing)
+                after = [st for st in iff.body[clear + 1:] if any((isinstance(c, ast.Call) and self_attr(c.func)) for c in ast.walk(st))
+                         or (isinstance(st, (ast.Assign, ast.AugAssign)) and any(self_attr(t) for t in (st.targets if isinstance(st, ast.Assign) else [st.target]))
+                             and any(isinstance(c, ast.Call) for c in ast.walk(st.value)))]
                 # … and it goes down only when the refresh has actually run: the statements in front of the clear refresh unconditionally (a refresh nested under a further
                 # test — "did the inputs really move?" — leaves a path on which the flag is cleared over the old value)
                 before = iff.body[:clear]
